@@ -10,6 +10,7 @@ ORACLE = {"05": sc.oracle_C05, "06": sc.oracle_C06_full, "07": sc.oracle_C07}["0
 
 def run(ck):
     sc.run_property(ck, ORACLE, MODES)
+    ck.run_fixed({"every_registration_of_a_component_is_torn_down": "C05:resource-teardown"})
 
 
 def replay(ck, obj):
